@@ -33,7 +33,10 @@ SNAKE = dict(Get='get', BatchGet='batch_get', GetMore='get_more', Put='put', Dro
              Touch='touch', Upload='upload', Chat='chat')
 
 
-def carrier_api(rules=None):
+SUB_AD = f'{PKG}.admin.RtAdmin'     # layout "sub": the second service lives in the proto sub-package acme.rt.v1.admin
+
+
+def carrier_api(rules=None, sub=False):
     """rules = {'body': [sel..], 'delete': [sel..]} as printed by Retry.tla (HTTPRULES): methods bound with a request
     body (post, body "*") / with DELETE, 'cstream' / 'bidi': client-streaming / bidirectional methods (no http rule);
     every other method is a unary GET without body.  None: unary methods without http rules."""
@@ -60,6 +63,11 @@ def carrier_api(rules=None):
                     md['http'] = [dict(verb='get', uri=uri)]
             methods.append(md)
         svcs.append(dict(name=s['name'], methods=methods))
+    if sub:
+        for md in svcs[1]['methods']:
+            md['in'], md['out'] = f'.{PKG}.Req', f'.{PKG}.Item'
+        return dict(files=[dict(name='acme/rt/v1/rt.proto', package=PKG, messages=msgs, services=svcs[:1]),
+                           dict(name='acme/rt/v1/admin/admin.proto', package=PKG + '.admin', messages=[], services=svcs[1:])])
     return dict(files=[dict(name='acme/rt/v1/rt.proto', package=PKG, messages=msgs, services=svcs)])
 
 
@@ -132,7 +140,7 @@ def predicted_methods(case, sels):
 
 
 # ---- workers (processes with the /repo hooks on) ------------------------------------------------------------------
-_REQ = None
+_REQ = {}
 
 
 def _init_worker():
@@ -142,12 +150,12 @@ def _init_worker():
     gen.enable_trace()
 
 
-def _request(rules):
+def _request(rules, sub=False):
     """CodeGeneratorRequest of the carrier API with exactly the transitive imports, as protoc would pass them."""
-    global _REQ
-    if _REQ is None:
-        api = carrier_api(rules)
-        api['files'][0]['std_deps'] = ['google/api/client.proto', 'google/api/annotations.proto']
+    if sub not in _REQ:
+        api = carrier_api(rules, sub)
+        for f in api['files']:
+            f['std_deps'] = ['google/api/client.proto', 'google/api/annotations.proto']
         req = absapi.build_request(api, '')
         by = {f.name: f for f in req.proto_file}
         keep = set()
@@ -162,21 +170,23 @@ def _request(rules):
         files = [f for f in req.proto_file if f.name in keep]
         del req.proto_file[:]
         req.proto_file.extend(files)
-        _REQ = req
-    return _REQ
+        _REQ[sub] = req
+    return _REQ[sub]
 
 
-def _resolve_chunk(cfgs, rules):
+def _resolve_chunk(cfgs, rules, sub=False):
     """real Options.build + API.build (pass 2: _get_retry_and_timeout) for each config; no rendering."""
     from gapic.schema import api as gapi
     from gapic.utils import Options
-    req = _request(rules)
+    req = _request(rules, sub)
+    AD = f'{PKG}.RtAdmin'
     out = []
     with gen.scratch() as work:
         path = os.path.join(work, 'retry.json')
         for cfg in cfgs:
             with open(path, 'w') as f:
-                json.dump(service_config(cfg), f)
+                txt = json.dumps(service_config(cfg))
+                f.write(txt.replace(f'"{AD}"', f'"{SUB_AD}"') if sub else txt)
             gen.read_trace()
             err = None
             try:
@@ -185,6 +195,8 @@ def _resolve_chunk(cfgs, rules):
             except Exception as e:
                 err = f'{type(e).__name__}: {e}'[:300]
             ev = [e for e in gen.read_trace() if e['ev'] == 'Method']
+            if sub:
+                ev = [dict(e, service=AD) if e['service'] == SUB_AD else e for e in ev]
             out.append(dict(error=err, methods=[project_method(e) for e in ev]))
     return out
 
@@ -344,6 +356,9 @@ def _main(chk, args, pool):
             # 2a. generation layer: enumerated configs through the real Options.build + API.build ------------------------
             chunks = [enum_cases[i:i + 40] for i in range(0, len(enum_cases), 40)]
             fut_res = [ex.submit(_resolve_chunk, [c['cfg'] for c in ch], rules) for ch in chunks]
+            # ... and once more with the second service in a proto SUB-PACKAGE (acme.rt.v1.admin.RtAdmin): where a service lives does
+            # not change which entry applies to its methods
+            fut_sub = [ex.submit(_resolve_chunk, [c['cfg'] for c in ch], rules, True) for ch in chunks]
             # 2b. table configs: full generation
             roots = {cid: os.path.join(work, f't{cid}', 'out') for cid in cids}
             for cid in cids:
@@ -353,9 +368,13 @@ def _main(chk, args, pool):
             resolved_obs = []
             for f in fut_res:
                 resolved_obs.extend(f.result())
+            sub_obs = []
+            for f in fut_sub:
+                sub_obs.extend(f.result())
         lap(f'generation layer: {len(enum_cases)} configs through API.build, {len(cids)} table configs generated')
-        for c, o in list(zip(enum_cases, resolved_obs)) + [(table[cid], gens[cid]) for cid in cids]:
-            key = ('table%d:' % c['cid'] if c['cid'] else '') + cfg_key(c['cfg'])
+        for lay, (c, o) in ([('', x) for x in list(zip(enum_cases, resolved_obs)) + [(table[cid], gens[cid]) for cid in cids]]
+                            + [('sub-package:', x) for x in zip(enum_cases, sub_obs)]):
+            key = lay + ('table%d:' % c['cid'] if c['cid'] else '') + cfg_key(c['cfg'])
             pred = predicted_methods(c, sels)
             named = set((n['svc'], n['meth']) for e in c['cfg'] for n in e['names'])
             chk.case('resolve:' + key, nontrivial=any((p['svc'], p['meth']) in named for p in pred))
@@ -371,6 +390,8 @@ def _main(chk, args, pool):
                        '; '.join(f"{p['svc']}/{p['meth']}: schema has timeout={m['timeout']} retry={m['policy']}, "
                                  f"the config entry gives timeout={p['timeout']} retry={p['policy']}" for p, m in bad[:3]))
                 chk.violation(f'resolve:{key}', msg, dict(case=c, observed=o['methods'], service_config=service_config(c['cfg'])))
+            if lay:
+                continue            # (the trace of the same config in the flat layout is validated; this pass compares only)
             traces.append(('resolve:' + key, dict(cid=c['cid'], cfg=c['cfg'] if c['cid'] == 0 else [], run=False, script=[],
                                                   events=load_events(o['methods'])), dict(case=c)))
         for cid in cids:
